@@ -220,13 +220,26 @@ func init() {
 				for _, j := range shapeJobs(encPkg, "H_C18_vbt", tier, []int{0}, []int{1}) {
 					jobs = append(jobs, j)
 				}
+				// message boundaries delivered by a connection (Conn.runReader on the scripted socket):
+				// values made of / containing "10=", tags ending or starting with 10, symbolic value bytes
+				for _, scn := range []int{0, 1, 4, 5} {
+					for _, mode := range []int{1, 2} {
+						jobs = append(jobs, J(rootPkg, "H_C04_reader", scn, mode, 0, 0, 0, 8, 0))
+					}
+					jobs = append(jobs, J(rootPkg, "H_C04_reader", scn, 0, 23, 3, 9, 8, 0))
+					if tier != "quick" {
+						for c1 := 20; c1 <= 60; c1 += 4 {
+							jobs = append(jobs, J(rootPkg, "H_C04_reader", scn, 0, c1, 1+c1%5, 2, 8, 0))
+						}
+					}
+				}
 				return jobs
 			},
-			Explanation:  "Round-trip (as C02) and fix.ValueByTag oracles on templates built to be adversarial for substring search: tags that extend or truncate a template tag by one digit (1146/46/14 next to 146, 134/4 next to 34, 135/5 next to 35, 110/0 next to 10, 155/5 next to the first member 55, 1711 next to a nested count 711), String leaves of 2..6 unconstrained bytes before, inside and after groups (the solver itself places 'tag=' inside values when that can change the parse), with the genuine field/group present and absent.",
-			Rule:         "case = (adversarial template, population mask, entry counts, length selector) x path",
+			Explanation:  "Round-trip (as C02) and fix.ValueByTag oracles on templates built to be adversarial for substring search: tags that extend or truncate a template tag by one digit (1146/46/14 next to 146, 134/4 next to 34, 135/5 next to 35, 110/0 next to 10, 155/5 next to the first member 55, 1711 next to a nested count 711), String leaves of 2..6 unconstrained bytes before, inside and after groups (the solver itself places 'tag=' inside values when that can change the parse), with the genuine field/group present and absent. Message boundaries: Conn.runReader (real bufio code, scripted socket) over streams whose values are or contain '10=' and whose tags end or start with 10 (110, 210, 1010, 101, 100) with symbolic value bytes; the delivered messages must equal the sent ones.",
+			Rule:         "case = (adversarial template, population mask, entry counts, length selector) x path; reader: (scenario, cut mode) x path",
 			Bounds:       map[string]string{"quick": "5 adversarial templates, value length 2..6, <= 3 entries", "thorough": "more masks and entry-count combinations"},
 			Assumptions:  commonAssumptions,
-			Outside:      "message boundary detection by Conn.runReader with values containing '10=' is checked under C04; raw sequence-number extraction in the session under C16",
+			Outside:      "Conn.runReader boundaries beyond reader scenarios 0/1/4/5 (cut positions exhaustively: C04); raw sequence-number extraction in the session under C16",
 			Differential: 6,
 		}
 		m["C11"] = &CheckSpec{
@@ -689,7 +702,7 @@ func init() {
 						jobs = append(jobs, J(rootPkg, "H_C04_reader", 0, 0, c1, c2, 1+(c1+c2)%4, 8, 0))
 					}
 				}
-				for scn := 0; scn <= 4; scn++ {
+				for scn := 0; scn <= 5; scn++ {
 					for _, mode := range []int{1, 2} {
 						for _, buf := range []int{0, 1, 2, 8} {
 							jobs = append(jobs, J(rootPkg, "H_C04_reader", scn, mode, 0, 0, 0, buf, 0))
